@@ -1369,6 +1369,12 @@ def sym_sqrt(s, complex_ok=True):
     key = ("sqrt", s.n, s.d)
     if key in R.memo:
         return R.memo[key]
+    if R.mode == "real" and not _has_i(s.n) and complex_ok and not s.is_const():
+        # principal complex square root of a real quantity: sign fork  (sqrt(x) = i*sqrt(-x) for x < 0)
+        if bool(mk_cmp("lt", s)):
+            out = sym_sqrt(-s) * Sym(R.I, R.one)
+            R.memo[key] = out
+            return out
     t = _perfect_square(s)
     if t is not None:
         if R.mode == "real":
